@@ -533,13 +533,13 @@ func plansC15(thorough bool) []Plan {
 		// simulation, depth 10 on long chains: rollbacks that stop above 0
 		{Name: "const-d10-long", MaxBlocks: d(22, 26), MaxNum: d(16, 20), MaxLeaves: 3, MaxEvents: 5, Keys: []string{"k1", "k2", "k3"},
 			D: constDepth, MaxR: constRange, Start0: 0, Precond: "depth", FKinds: []string{"db", "dbc"},
-			SimNum: d(30, 1000), SimLen: d(40, 50),
-			Flavors: []string{FlRegistry, FlSequencer}, Stretch: 1, MaxBeh: 0, EnumEvery: d(10, 4)},
+			SimNum: d(30, 300), SimLen: d(40, 50),
+			Flavors: []string{FlRegistry, FlSequencer}, Stretch: 1, MaxBeh: 0, EnumEvery: d(10, 6)},
 		// simulation, MultiEventSyncer with depth 3 and range 4 on long chains: partial rollbacks, several ranges
 		{Name: "multi-d3-long", MaxBlocks: d(18, 24), MaxNum: d(14, 18), MaxLeaves: 3, MaxEvents: 5, Keys: []string{"k1", "k2", "k3"},
 			D: 3, MaxR: 4, Start0: 1, Precond: "depth", FKinds: []string{"db", "dbc"},
-			SimNum: d(40, 1000), SimLen: d(36, 46),
-			Flavors: []string{FlMulti}, Stretch: 1, MaxBeh: 0, EnumEvery: d(10, 4)},
+			SimNum: d(40, 300), SimLen: d(36, 46),
+			Flavors: []string{FlMulti}, Stretch: 1, MaxBeh: 0, EnumEvery: d(10, 6)},
 		// several ranges per call on the syncers with the constant range 10000: linear chains,
 		// one abstract block = 5000 real blocks
 		{Name: "const-ranges", MaxBlocks: d(5, 6), MaxNum: d(4, 5), MaxLeaves: 1, MaxEvents: 3, Keys: []string{"k1", "k2", "k3"},
